@@ -3,6 +3,7 @@ package props
 import (
 	"fmt"
 	"strings"
+	"time"
 
 	"github.com/veraison/psatoken"
 	"github.com/veraison/psatoken/encoding"
@@ -134,14 +135,17 @@ func (h *hostileRunner) run(family, class string, input []byte) {
 		ep := ep
 		var err error
 		accepted := false
-		if pn, pv, fr := mon.Guard(func() {
+		mon.CallBegin(ep.name)
+		pn, pv, fr := mon.Guard(func() {
 			var res any
 			res, err = ep.fn(input)
 			if err == nil {
 				accepted = true
 				exercise(res)
 			}
-		}); pn {
+		})
+		mon.CallEnd()
+		if pn {
 			stage := "decode"
 			if accepted {
 				stage = "use-of-result"
@@ -168,6 +172,8 @@ func runC05(c *mon.Ctx) {
 	}
 	g := model.NewGen(c.Seed*1543 + int64(c.Shard))
 	h := &hostileRunner{c: c, eps: entryPoints(), prop: "C05"}
+	// "returns a value or an error": a call that spins is ended (and attributed) after 20 s of CPU
+	mon.StartWatchdog(20*time.Second, "call-does-not-return")
 	corpus := buildCorpus(g, 6)
 	pick := func(family string) corpusItem {
 		for {
